@@ -18,6 +18,8 @@ type specScope struct {
 	results map[string]Value
 	bound   map[string]Value
 	depth   int
+	// assumeMode: the expression is being assumed (callee contract at a call site), not proved
+	assumeMode bool
 }
 
 func (s *specScope) with(name string, v Value) *specScope {
@@ -373,7 +375,24 @@ func (x *Exec) specBin(sc *specScope, n *EBin, hint types.Type) Value {
 	case "||":
 		return boolV(Or(x.evalSpec0(sc, n.X, nil).L[0], x.evalSpec0(sc, n.Y, nil).L[0]))
 	case "==>":
-		return boolV(Implies(x.evalSpec0(sc, n.X, nil).L[0], x.evalSpec0(sc, n.Y, nil).L[0]))
+		lhs := x.evalSpec0(sc, n.X, nil).L[0]
+		if lhs.IsFalse() {
+			return boolV(True)
+		}
+		// a consequent that talks about a call which did not happen on this path is false
+		rhs := func() (r *Term) {
+			defer func() {
+				if p := recover(); p != nil {
+					if u, ok := p.(unsupported); ok && strings.Contains(u.msg, "no recorded call") {
+						r = BoolLit(sc.assumeMode) // obligation: false; assumption at a call site: vacuous
+						return
+					}
+					panic(p)
+				}
+			}()
+			return x.evalSpec0(sc, n.Y, nil).L[0]
+		}()
+		return boolV(Implies(lhs, rhs))
 	case "<==>":
 		return boolV(Eq(x.evalSpec0(sc, n.X, nil).L[0], x.evalSpec0(sc, n.Y, nil).L[0]))
 	}
